@@ -3,6 +3,7 @@ package plainchecks
 import (
 	"fmt"
 	"reflect"
+	"runtime"
 	"testing"
 
 	"github.com/cloudwego/frugal"
@@ -35,13 +36,14 @@ func init() {
 	harness.Register(&harness.Check{
 		ID:          "C18",
 		Level:       "model_checking",
-		Explanation: "Bounded exhaustive enumeration (E1) on the UNMODIFIED build, one goroutine, GOMAXPROCS=1: every single-field type of T3 (so every registered map/list encode routine and both generic fall-backs), by-value and pointer structs, unknown-field holders x values {empty, small, 100+ elements} x first-use orders {pointer first, value first then pointer, size first}; after one warm-up call testing.AllocsPerRun(40, ...) must be 0 for EncodedSize(ptr) and EncodeObject(sufficient buffer, nil, ptr), and for rounds alternating these calls with calls on a second used type.",
+		Explanation: "Bounded exhaustive enumeration (E1) on the UNMODIFIED build, one goroutine, GOMAXPROCS=1: every single-field type of T3 (so every registered map/list encode routine and both generic fall-backs), by-value and pointer structs, unknown-field holders x values {empty, small, 100+ elements} x first-use orders {pointer first, value first then pointer, size first, an empty value first (then the very first call on the non-empty value is measured)}; after one warm-up call testing.AllocsPerRun(40, ...) must be 0 for EncodedSize(ptr) and EncodeObject(sufficient buffer, nil, ptr), and for rounds alternating these calls with calls on a second used type.",
 		Assumptions: []string{"go1.23.5 toolchain and its escape analysis", "allocation counts are measured with runtime.MemStats (testing.AllocsPerRun) on a quiescent single goroutine"},
 		Phases: func(tier universe.Tier) []*harness.Phase {
 			return []*harness.Phase{{
-				Name: "allocations",
-				Rule: "T3 single-field types x 3 value sizes x 3 first-use orders on fresh Go types; distinct by (type, value size, order)",
-				Body: func(c *explore.C) { c18Body(c, tier) },
+				Name:           "allocations",
+				OncePerProcess: true,
+				Rule:           "T3 single-field types x 3 value sizes x 4 first-use orders on fresh Go types; distinct by (type, value size, order)",
+				Body:           func(c *explore.C) { c18Body(c, tier) },
 			}}
 		},
 	})
@@ -67,8 +69,10 @@ func c18Values(s *ref.Struct) []*ref.Val {
 func c18Body(c *explore.C, tier universe.Tier) {
 	fam := c18Family()
 	ti := c.Choose(len(fam), explore.Data, "type")
+	// the empty-value-first order is explored first for every type, with the non-empty values in turn: type-level
+	// caches cannot be reset in the unmodified build, so only the first executions on a container type see it fresh
+	order := (c.Choose(4, explore.Data, "first-use-order") + 3) % 4
 	vi := c.Choose(3, explore.Data, "value-size")
-	order := c.Choose(3, explore.Data, "first-use-order")
 	harness.Cur.Crumb(c.Choices())
 	// a fresh Go type per execution: the first-use order matters
 	c18Salt++
@@ -97,6 +101,26 @@ func c18Body(c *explore.C, tier universe.Tier) {
 		frugal.EncodeObject(buf, nil, ptr)
 	case 2:
 		frugal.EncodedSize(ptr)
+	case 3:
+		// the type is first used with an EMPTY value (a codec warm-up); the measured value is then seen
+		// for the first time by the measured call itself: "once a type has been used" - whatever the value
+		if vi == 0 {
+			return
+		}
+		e := universe.New(s, c18Values(s)[0]).Interface()
+		frugal.EncodedSize(e)
+		frugal.EncodeObject(buf, nil, e)
+		c18TouchMaps(src) // (the runtime allocates bookkeeping on the first iteration of a map object: not the library's)
+		m0 := c18Mallocs()
+		frugal.EncodedSize(ptr)
+		m1 := c18Mallocs()
+		frugal.EncodeObject(buf, nil, ptr)
+		m2 := c18Mallocs()
+		if m1 != m0 || m2 != m1 {
+			c.Fail(fmt.Sprintf("the first call on a non-empty value of a type already used (with an empty value) allocates: EncodedSize %d, EncodeObject %d objects [value size %d]", m1-m0, m2-m1, vi),
+				&harness.Case{Property: "C18", Class: "first-nonempty-allocates", Type: s.String(), Value: v.Short(), GoType: universe.GoSource(s)})
+			return
+		}
 	}
 	// warm-up of both calls
 	n := frugal.EncodedSize(ptr)
@@ -216,4 +240,37 @@ func c18Rotation(first interface{}, firstBuf []byte) string {
 		}
 	}
 	return ""
+}
+
+var c18ms runtime.MemStats
+
+func c18Mallocs() uint64 {
+	runtime.ReadMemStats(&c18ms)
+	return c18ms.Mallocs
+}
+
+// c18TouchMaps iterates every map reachable from v once.
+func c18TouchMaps(v reflect.Value) {
+	switch v.Kind() {
+	case reflect.Ptr:
+		if !v.IsNil() {
+			c18TouchMaps(v.Elem())
+		}
+	case reflect.Struct:
+		for i := 0; i < v.NumField(); i++ {
+			c18TouchMaps(v.Field(i))
+		}
+	case reflect.Slice:
+		if v.Type().Elem().Kind() != reflect.Uint8 {
+			for i := 0; i < v.Len(); i++ {
+				c18TouchMaps(v.Index(i))
+			}
+		}
+	case reflect.Map:
+		it := v.MapRange()
+		for it.Next() {
+			c18TouchMaps(it.Key())
+			c18TouchMaps(it.Value())
+		}
+	}
 }
